@@ -138,7 +138,7 @@ def collect(ctx, n, size, depth):
 
 
 def _run(ctx, work):
-    n = ctx.pick(120, 3000)
+    n = ctx.pick(90, 3000)
     cases = collect(ctx, n, ctx.pick(10, 18), ctx.pick(3, 4))
     verdicts = validate(work, cases)
     stats = {}
@@ -159,12 +159,42 @@ def _run(ctx, work):
             ctx.violation(vd, trig, {'program': c['text'], 'cfg': o['cfg'], 'seed': c['seed'], 'verdict': vd, 'pos': pos,
                                      'observed_event': ev, 'observed_outcome': o['outcome'], 'spec_status': v['status'],
                                      'line': ln})
+    demo = binding_demo(work, cases, verdicts)
+    if demo['rejected'] != demo['corrupted']:
+        raise Machinery('binding demonstration failed: %r' % demo)
+    ctx.coverage['binding_demo'] = demo
     ctx.coverage.update({
         'states': sum(v['steps'] for v in verdicts) + len(verdicts), 'transitions': sum(v['steps'] for v in verdicts),
         'traces_validated_against_impl': sum(len(c['obs']) for c in cases),
         'programs': len(cases), 'verdicts': stats,
         'samples': [{'seed': cases[0]['seed'], 'program': cases[0]['text']}] if cases else [],
     })
+
+
+def binding_demo(work, cases, verdicts):
+    """corrupt one recorded value / drop one recorded event of traces that passed: must be rejected"""
+    import copy
+    demo = []
+    for c, v in zip(cases, verdicts):
+        if len(demo) >= 24:
+            break
+        if any(x != 'ok' for x in v['verd']):
+            continue
+        o = c['obs'][0]
+        vals = [(i, j) for i, e in enumerate(o['events']) if e['k'] == 'print'
+                for j, it in enumerate(e['items']) if it['k'] == 'val' and it['v'][0] in 'IL']
+        if not vals:
+            continue
+        d = {'tid': len(demo), 'ast': c['ast'], 'obs': [copy.deepcopy(o)]}
+        i, j = vals[len(vals) // 2]
+        d['obs'][0]['events'][i]['items'][j]['v'][1] += 1
+        demo.append(d)
+        if len(o['events']) >= 2:
+            d2 = {'tid': len(demo), 'ast': c['ast'], 'obs': [copy.deepcopy(o)]}
+            del d2['obs'][0]['events'][len(o['events']) // 2]
+            demo.append(d2)
+    vs = validate(work, demo, name='demo.json') if demo else []
+    return {'corrupted': len(demo), 'rejected': sum(1 for x in vs if x['verd'][0] not in ('ok', 'oom', 'budget'))}
 
 
 def replay(ctx, case):
